@@ -2,7 +2,7 @@
    SPEC: StmtSpec.exec (the sequential reading).  MODEL: Stmt.next (StmtIterator::next_with_context)
    driven to the end.  Property theorems only; proofs in proofs/StmtRefine.v, StmtCorollaries.v. *)
 From DTR Require Import Prelude I64 Ast FramedMap Parser Bind Eval Stmt StmtSpec Iter ExpandSpec WfSpec RunSpec.
-From DTR.proofs Require Import FramedMapProof StmtRefine StmtCorollaries IterLogProof NoPanicProof RunRefine.
+From DTR.proofs Require Import FramedMapProof StmtRefine StmtCorollaries AfterErrorProof IterLogProof NoPanicProof RunRefine.
 Local Open Scope Z_scope.
 
 (* For EVERY program, context, evaluation functions and row handler (the handler stands for all
@@ -103,6 +103,70 @@ Theorem C01_bits_msb_first : forall k v j, (j < k)%nat ->
   nth_error (bits_entries k v) j = Some (DNum (Z.land (Z.shiftr v (Z.of_nat (k - 1 - j))) 1)).
 Proof. exact bits_msb_first. Qed.
 
+(* ---- the iterator after an error item (callers may keep calling next()) *)
+(* after an error item the iterator can be called again (the Rust object was mutated before `?` returned): a failing `let` is consumed - the old binding stays - and the run goes on with the rest of the block *)
+Theorem C01_after_failing_let :
+  forall (C F W : Type) (eval : C -> expr -> C * (Z + F)) (row_eval : C -> list dentry -> C * (W + F))
+  (setv : C -> name -> Z -> C) (getv : C -> name -> option Z) (push pop reset : C -> C)
+  (f : nat) (n : name) (e : expr) (r : list stmt) (c c1 : C) (x : F),
+  eval c e = (c1, inr x) ->
+  next C F W eval row_eval setv getv push pop reset (S f) (SI (SLet n e :: r) Iterate) c =
+  NErr C F W x (SI r Iterate) c1.
+Proof. exact next_err_let. Qed.
+
+(* a data row with a failing entry is consumed (skipped) *)
+Theorem C01_after_failing_row :
+  forall (C F W : Type) (eval : C -> expr -> C * (Z + F)) (row_eval : C -> list dentry -> C * (W + F))
+  (setv : C -> name -> Z -> C) (getv : C -> name -> option Z) (push pop reset : C -> C)
+  (f : nat) (d : list dentry) (l : N) (r : list stmt) (c c1 : C) (x : F),
+  row_eval c d = (c1, inr x) ->
+  next C F W eval row_eval setv getv push pop reset (S f) (SI (Ast.SRow d l :: r) Iterate) c =
+  NErr C F W x (SI r Iterate) c1.
+Proof. exact next_err_row. Qed.
+
+(* a loop whose bound fails is skipped as a whole: no frame is opened *)
+Theorem C01_after_failing_loop_bound :
+  forall (C F W : Type) (eval : C -> expr -> C * (Z + F)) (row_eval : C -> list dentry -> C * (W + F))
+  (setv : C -> name -> Z -> C) (getv : C -> name -> option Z) (push pop reset : C -> C)
+  (f : nat) (v : name) (e : expr) (body r : list stmt) (c c1 : C) (x : F),
+  eval c e = (c1, inr x) ->
+  next C F W eval row_eval setv getv push pop reset (S f) (SI (SLoop v e body :: r) Iterate) c =
+  NErr C F W x (SI r Iterate) c1.
+Proof. exact next_err_loop_bound. Qed.
+
+(* a failing `while` condition leaves the iterator AT the condition: the next call evaluates it again *)
+Theorem C01_after_failing_while_condition :
+  forall (C F W : Type) (eval : C -> expr -> C * (Z + F)) (row_eval : C -> list dentry -> C * (W + F))
+  (setv : C -> name -> Z -> C) (getv : C -> name -> option Z) (push pop reset : C -> C)
+  (f : nat) (rest : list stmt) (ws : wstate) (c c1 : C) (x : F),
+  eval c (wcond ws) = (c1, inr x) ->
+  next C F W eval row_eval setv getv push pop reset (S f) (SI rest (StartWhile ws)) c =
+  NErr C F W x (SI rest (StartWhile ws)) c1.
+Proof. exact next_err_while_cond. Qed.
+
+(* an error inside a loop body leaves the loop (its frame, its counter) as it is, with the body's iterator after the failing statement *)
+Theorem C01_error_inside_loop_keeps_the_loop_open :
+  forall (C F W : Type) (eval : C -> expr -> C * (Z + F)) (row_eval : C -> list dentry -> C * (W + F))
+  (setv : C -> name -> Z -> C) (getv : C -> name -> option Z) (push pop reset : C -> C)
+  (f : nat) (rest : list stmt) (inner : siter) (ls : lstate) (c : C) (x : F)
+  (inner' : siter) (c' : C),
+  next C F W eval row_eval setv getv push pop reset f inner c = NErr C F W x inner' c' ->
+  next C F W eval row_eval setv getv push pop reset (S f) (SI rest (IterInner inner ls)) c =
+  NErr C F W x (SI rest (IterInner inner' ls)) c'.
+Proof. exact next_err_inner. Qed.
+
+(* the same inside a while body *)
+Theorem C01_error_inside_while_keeps_it_open :
+  forall (C F W : Type) (eval : C -> expr -> C * (Z + F)) (row_eval : C -> list dentry -> C * (W + F))
+  (setv : C -> name -> Z -> C) (getv : C -> name -> option Z) (push pop reset : C -> C)
+  (f : nat) (rest : list stmt) (inner : siter) (ws : wstate) (c : C) (x : F)
+  (inner' : siter) (c' : C),
+  next C F W eval row_eval setv getv push pop reset f inner c = NErr C F W x inner' c' ->
+  next C F W eval row_eval setv getv push pop reset (S f) (SI rest (WhileInner inner ws)) c =
+  NErr C F W x (SI rest (WhileInner inner' ws)) c'.
+Proof. exact next_err_while_inner. Qed.
+
+
 Check C01_iterator_refines_sequential_reading.
 
 (* non-vacuity: a loop with a row, a zero-bound loop that must not run, a shadowing let *)
@@ -122,3 +186,5 @@ Print Assumptions C01_iterator_refines_sequential_reading.
 Print Assumptions C01_sequential_reading_refines_iterator.
 Print Assumptions C01_run_is_the_sequential_reading.
 Print Assumptions C01_sequential_reading_is_the_run.
+Print Assumptions C01_after_failing_while_condition.
+Print Assumptions C01_error_inside_loop_keeps_the_loop_open.
